@@ -36,6 +36,7 @@ func init() {
 		"go.topup":       goTopUp,
 		"go.parsedwrite": goParsedWrite,
 		"go.refs":        goRefs,
+		"go.copyrem":     goCopyRemaining,
 		"go.writeint":    goWriteInt,
 		"go.minbits":     goMinBits,
 	}})
@@ -308,7 +309,11 @@ func applyItem(t bitIO, tok string) (out string) {
 			return "ok"
 		case "cr":
 			c2 := cell.CopyRemaining()
-			return fmt.Sprintf("ok:%s/%d/%d", showBs(c2.RawBitString()), c2.RefsSize(), c2.RefsAvailableForRead())
+			out := fmt.Sprintf("ok:%s/%d/%d/%d", showBs(c2.RawBitString()), c2.BitsAvailableForRead(), c2.RefsSize(), c2.RefsAvailableForRead())
+			for _, r := range c2.Refs() {
+				out += fmt.Sprintf("/%s:%d", showBs(r.RawBitString()), r.BitsAvailableForRead())
+			}
+			return out
 		}
 	}
 	return "bad"
@@ -796,6 +801,90 @@ func goRefs(a []string) string {
 	c2 := c.CopyRemaining()
 	if c2.RefsSize() != len(rs) || c.RefsAvailableForRead() != len(rs) {
 		return fail("refs-copy", "")
+	}
+	return "ok"
+}
+
+// go.copyrem <bits> <skip> <nrefs> <k> <reset>: a cell with the bits and nrefs references; Skip(skip), NextRef x k,
+// optionally ResetCounters; CopyRemaining must return exactly the unread bits and exactly the unread references (same
+// cells, same order, counters reset) and leave both cursors of the source where they were.
+func goCopyRemaining(a []string) string {
+	bin := a[0]
+	if bin == "-" {
+		bin = ""
+	}
+	skip, n, k, reset := atoi(a[1]), atoi(a[2]), atoi(a[3]), a[4] == "1"
+	c := refCell(bin)
+	var rs []*boc.Cell
+	for i := 0; i < n; i++ {
+		r := refCell(strconv.FormatInt(int64(i+8), 2))
+		if err := c.AddRef(r); err != nil {
+			return "bad-op"
+		}
+		rs = append(rs, r)
+	}
+	if err := c.Skip(skip); err != nil {
+		return "bad-op"
+	}
+	for i := 0; i < k; i++ {
+		r, err := c.NextRef()
+		if err != nil || r != rs[i] {
+			return fail("copyrem-next", "%d", i)
+		}
+		r.ReadBit() // a consumed child with a moved cursor
+	}
+	if reset {
+		c.ResetCounters()
+		skip, k = 0, 0
+	}
+	avB, avR := c.BitsAvailableForRead(), c.RefsAvailableForRead()
+	if avB != len(bin)-skip || avR != n-k {
+		return fail("copyrem-setup", "bits %d refs %d", avB, avR)
+	}
+	c2 := c.CopyRemaining()
+	if got := bitsOfBs(c2.RawBitString()); got != bin[skip:] {
+		return fail("copyrem-bits", "skip %d (mod8 %d): got %d bits want %d", skip, skip%8, len(got), len(bin)-skip)
+	}
+	fresh := bsOf(bin[skip:])
+	if raw := c2.RawBitString(); !bytes.Equal(bufPrefix(&raw), fresh.Buffer()) {
+		return fail("copyrem-dirty", "skip %d", skip)
+	}
+	if c2.BitsAvailableForRead() != len(bin)-skip || c2.RefsAvailableForRead() != n-k {
+		return fail("copyrem-cursors", "copy has %d bits %d refs to read", c2.BitsAvailableForRead(), c2.RefsAvailableForRead())
+	}
+	got := c2.Refs()
+	if len(got) != n-k {
+		return fail("copyrem-refcount", "%d refs, %d consumed: copy has %d", n, k, len(got))
+	}
+	for i, r := range got {
+		if r != rs[k+i] {
+			return fail("copyrem-refs", "%d refs, %d consumed: copy ref %d is not source ref %d", n, k, i, k+i)
+		}
+		if r.BitsAvailableForRead() != r.BitSize() {
+			return fail("copyrem-child-cursor", "ref %d", i)
+		}
+	}
+	if c.BitsAvailableForRead() != avB || c.RefsAvailableForRead() != avR {
+		return fail("copyrem-source", "source cursors moved: bits %d->%d refs %d->%d", avB, c.BitsAvailableForRead(), avR, c.RefsAvailableForRead())
+	}
+	if k < n {
+		if r, err := c.NextRef(); err != nil || r != rs[k] {
+			return fail("copyrem-source-next", "NextRef after CopyRemaining is not ref %d", k)
+		}
+	} else if _, err := c.NextRef(); err == nil {
+		return fail("copyrem-source-next", "NextRef beyond the last ref succeeded")
+	}
+	for i := 0; ; i++ {
+		r, err := c2.NextRef()
+		if err != nil {
+			if i != n-k {
+				return fail("copyrem-copy-next", "%d", i)
+			}
+			break
+		}
+		if i >= n-k || r != rs[k+i] {
+			return fail("copyrem-copy-next", "%d", i)
+		}
 	}
 	return "ok"
 }
@@ -1593,6 +1682,60 @@ func genC06(g *h.G) {
 	}
 	for n := 0; n <= 7; n++ {
 		g.Emit("go.refs", fmt.Sprint(n))
+	}
+	// CopyRemaining after k consumed references / skipped bits, every ref count 0..4, every k, every alignment
+	for n := 0; n <= 4; n++ {
+		for k := 0; k <= n; k++ {
+			for rep := 0; rep < g.Scale(8, 60); rep++ {
+				nb := g.Rng.Intn(120)
+				if g.Rng.Intn(6) == 0 {
+					nb = g.Pick(0, 1, 7, 8, 9, 1016, 1022, 1023)
+				}
+				bin := randBits(g, nb)
+				skip := 0
+				if nb > 0 {
+					skip = g.Rng.Intn(nb + 1)
+					if rep < 8 && rep <= nb {
+						skip = rep // every alignment 0..7
+					}
+				}
+				reset := g.Rng.Intn(5) == 0
+				arg := bin
+				if arg == "" {
+					arg = "-"
+				}
+				g.Emit("go.copyrem", arg, fmt.Sprint(skip), fmt.Sprint(n), fmt.Sprint(k), fmt.Sprint(map[bool]int{false: 0, true: 1}[reset]))
+				// the same shape through the model: distinct reference markers, cursors observed afterwards
+				var it []string
+				if bin != "" {
+					it = append(it, "ws:"+bin)
+				}
+				for i := 0; i < n; i++ {
+					it = append(it, "ar:"+strconv.FormatInt(int64(i+8), 2))
+				}
+				if g.Rng.Intn(4) == 0 {
+					it = append(it, "ar:1") // a fifth AddRef must fail when n = 4
+				}
+				it = append(it, fmt.Sprintf("sk:%d", skip))
+				for i := 0; i < k; i++ {
+					it = append(it, "nr")
+				}
+				if g.Rng.Intn(6) == 0 {
+					it = append(it, "nr")
+				}
+				if reset {
+					it = append(it, "rC")
+				}
+				it = append(it, "cr", "av", "nr", "cr", "rC", "cr")
+				init := "-"
+				if g.Rng.Intn(3) == 0 && bin != "" {
+					init = "p" + bin
+					it = it[1:]
+				}
+				g.Emit("bs.cell", init, strings.Join(it, ";"))
+				g.Count(fmt.Sprintf("copyrem_refs_%d_consumed_%d", n, k))
+			}
+		}
 	}
 	for i := 0; i < g.Scale(600, 6000); i++ {
 		n := pickWidth(g)
